@@ -81,12 +81,14 @@ def run_case(case, name):
 
     sim = {"int": DEVSSimulatorInt, "float": DEVSSimulatorFloat, "dur": DEVSSimulatorDuration}[ck](name)
     sim.set_error_strategy({"log": ErrorStrategy.LOG_AND_CONTINUE, "warn": ErrorStrategy.WARN_AND_CONTINUE,
-                            "pause": ErrorStrategy.WARN_AND_PAUSE}[case.get("strategy", "pause")])
+                            "pause": ErrorStrategy.WARN_AND_PAUSE,
+                            "end": ErrorStrategy.WARN_AND_END}[case.get("strategy", "pause")])
 
     rec = {"trace": [], "outs": [], "ntfs": [], "snaps": [], "notes": [], "log": []}
     prog = case["prog"]
     construct_fails = set(case.get("construct_fails", []))     # 1-based numbers of the construct_model calls that raise
     nconstruct = [0]
+    cur_cmd = [None]                              # the command the main thread issued last
     lcmds = case.get("lcmds", [])                 # commands issued from listeners
     lcount = [0] * len(lcmds)
     tls = threading.local()
@@ -199,7 +201,9 @@ def run_case(case, name):
             q = None if ts is None else to_q(ts)
             with lock:
                 rec["ntfs"].append([nm, q])
-                rec["log"].append(["ntf", nm, q, "w" if on_worker_thread() else "m"])
+                # ... with the states a listener sees at this moment and the command of the main thread in progress
+                rec["log"].append(["ntf", nm, q, "w" if on_worker_thread() else "m", sim.run_state.name,
+                                   sim.replication_state.name, cur_cmd[0]])
             if gates:
                 gate_point("ntf", nm)
             if lcmds and not getattr(tls, "busy", False):
@@ -209,6 +213,8 @@ def run_case(case, name):
                     if lc["ntf"] != nm or lcount[li] >= lc.get("max", 3):
                         continue
                     if lc.get("when_rs") and sim.run_state.name not in lc["when_rs"]:
+                        continue
+                    if lc.get("when_cmd") and cur_cmd[0] not in lc["when_cmd"]:
                         continue
                     if lc.get("when_ps") and sim.replication_state.name not in lc["when_ps"]:
                         continue
@@ -343,6 +349,7 @@ def run_case(case, name):
         """a command issued by the main thread; the moment it returns is marked in the log"""
         with lock:
             rec["log"].append(["call", c])
+        cur_cmd[0] = c[0]
         t1 = time.time()
         r = issue(c)
         with lock:
@@ -371,6 +378,14 @@ def run_case(case, name):
             time.sleep(0.0002)
         rec["hold_reached"] = gstate[hold]["reached"]
         rec["held_state"] = gstate[hold]["seen"]
+        if case.get("issue_when"):
+            # a window that no listener marks (e.g. the run thread waiting inside its own cleanup()):
+            # wait for the condition on the shared state, then a fixed delay into the window
+            t0 = time.time()
+            while not cond_holds(case["issue_when"]) and time.time() - t0 < 3.0:
+                time.sleep(0.0005)
+            rec["issue_when_met"] = cond_holds(case["issue_when"])
+            time.sleep(case.get("issue_delay", 0.0))
         # the shared state at the moment the overlapping command is issued, and whether the gate still holds
         rec["at_issue"] = [sim.run_state.name, sim.replication_state.name, not gstate[hold]["passed"]]
         with lock:
